@@ -57,52 +57,7 @@ def run(ctx):
     PC.site_rule(ctx, w, ["ruma_identifiers_validation", "ruma_common"], "C10.sites",
                  fn_filter=lambda fn: fn["crate"] == "ruma_identifiers_validation" or "::identifiers::" in fn["path"], floor=40)
 
-    # ---- validate-before-construct ------------------------------------------------------------------
-    ctx.rule("C10.validate", "for every validated identifier type, each IdZst-generated function that receives text and calls an unchecked "
-                             "constructor does so only on paths where the type's validate function returned Ok for that same string; all such functions of a type use one validate")
-    n_ctor = 0
-    validators = {}
-    for t, tdisp in sorted(types.items()):
-        tf = [p for p in w.fn_index if p.replace("::<", "<").startswith(f"<&'a {tdisp} as core::convert::TryFrom<&'a str>>::try_from")]
-        if not tf:
-            continue  # unvalidated string newtype (DeviceId, TransactionId, ...): any string is a member
-        f0 = w.fn(tf[0])
-        vals = [M.callee_name(c) for _, c in M.calls(f0["body"]) if "validat" in M.callee_name(c).rsplit("::", 2)[-1] or "validat" in M.callee_name(c)]
-        if len(set(vals)) != 1:
-            ctx.unrecognised("C10.validate", f"C10.validate:{short_ty(t)}:validator", w.where(f0), f"cannot identify the validate function: {vals}")
-            continue
-        V = vals[0]
-        validators[t] = V
-        for fn in family(w, tdisp):
-            argc = fn["body"]["argc"]
-            ptys = fn["body"]["locals"][1:argc + 1]
-            takes_id = any(tdisp.split("<")[0] in pt.replace("::<", "<") for pt in ptys)
-            calls_unchecked = [c for _, c in M.calls(fn["body"]) if M.callee_name(c).rsplit("::", 1)[-1] in UNCHECKED and
-                               M.callee_name(c).replace("::<", "<").startswith(tdisp.split("<")[0])]
-            if not calls_unchecked or takes_id:
-                continue
-            n_ctor += 1
-            args = [D.sym(f"a{i}") for i in range(argc)]
-            try:
-                paths = dex.paths(fn, args)
-            except D.Unrecognised as e:
-                ctx.unrecognised("C10.validate", f"C10.validate:{fn['path']}", w.where(fn), str(e))
-                continue
-            good, why = True, ""
-            for p in paths:
-                tv = U.true_variants(p)
-                for i, e in enumerate(p.effects):
-                    if e[0].rsplit("::", 1)[-1] in UNCHECKED and e[0].replace("::<", "<").startswith(tdisp.split("<")[0]):
-                        arg = D.show(e[1][0])
-                        prior = [x for x in p.effects[:i] if x[0] == V or x[0].split("::<")[0] == V.split("::<")[0]]
-                        okv = [x for x in prior if D.show(x[1][0]) == arg and tv.get(D.show(U_ret(x))) == "Ok"]
-                        if not okv:
-                            good = False
-                            why = f"{e[0].rsplit('::', 1)[-1]}({arg}) without a successful {V.rsplit('::', 2)[-2]}::validate({arg}) before it"
-            ctx.check(good, "C10.validate", f"C10.validate:{fn['path']}", w.where(fn), bad_msg=why)
-    ctx.count("validated_id_types", len(validators))
-    ctx.floor("constructors checked for validate-before-construct", n_ctor, 40)
-    ctx.floor("validated identifier types", len(validators), 10)
+    validate_rules(ctx, w, types, dex)
 
     # ---- storage ----------------------------------------------------------------------------------------
     ctx.rule("C10.storage", "from_borrowed/from_box/from_rc/from_arc/into_owned are pointer casts of their argument (only Box/Rc/Arc into_raw/from_raw calls), as_str/as_bytes project the str field: bytes are stored unchanged")
@@ -223,8 +178,71 @@ def run(ctx):
         witness.check(ctx, "C10.witness", {"C10FromBorrowed": "UserId::from_borrowed is callable from another crate: identifiers can be created without validation", "C10FromBox": "RoomAliasId::from_box is callable from another crate: identifiers can be created without validation"})
     from . import controls
     controls.sites(ctx, "C10.sites")
-    ctx.assumptions += ["the exact accepted language of each validator (e.g. ports of 1-5 digits) is not decided statically; F13 (`+80`, `000080` accepted as port) is recorded in DESIGN.md as read, not rule-derived"]
+    ctx.assumptions += ["of the accepted language of each validator only the listed clauses are decided (non-empty host, host alphabet, port = 1-5 digits that parse as u16, "
+                        "length limit, sigils, separator agreement); acceptance of every identifier of the spec's recommended grammar is not"]
     ctx.samples += [{"type": "UserId", "constructor": "parse_arc", "rule": "from_arc(s) only after user_id::validate(s) is Ok"}]
+
+
+def validate_rules(ctx, w, types=None, dex=None):
+    """validate-before-construct: the identifier type invariant that the reviewed accessor sites (category INV-ID) rely on."""
+    types = types or id_types(w)
+    dex = dex or D.Dex(w.lookup, adt_discr=w.adt_discr, effects=lambda n: True)
+    # ---- validate-before-construct ------------------------------------------------------------------
+    ctx.rule("C10.validate", "for every validated identifier type, each IdZst-generated function that receives text and calls an unchecked "
+                             "constructor does so only on paths where the type's validate function returned Ok for that same string; all such functions of a type use one validate")
+    n_ctor = 0
+    validators = {}
+    for t, tdisp in sorted(types.items()):
+        tf = [p for p in w.fn_index if p.replace("::<", "<").startswith(f"<&'a {tdisp} as core::convert::TryFrom<&'a str>>::try_from")]
+        if not tf:
+            continue  # unvalidated string newtype (DeviceId, TransactionId, ...): any string is a member
+        f0 = w.fn(tf[0])
+        vals = [M.callee_name(c) for _, c in M.calls(f0["body"]) if "validat" in M.callee_name(c).rsplit("::", 2)[-1] or "validat" in M.callee_name(c)]
+        if len(set(vals)) != 1:
+            ctx.unrecognised("C10.validate", f"C10.validate:{short_ty(t)}:validator", w.where(f0), f"cannot identify the validate function: {vals}")
+            continue
+        V = vals[0]
+        validators[t] = V
+        for fn in family(w, tdisp):
+            argc = fn["body"]["argc"]
+            ptys = fn["body"]["locals"][1:argc + 1]
+            takes_id = any(tdisp.split("<")[0] in pt.replace("::<", "<") for pt in ptys)
+            calls_unchecked = [c for _, c in M.calls(fn["body"]) if M.callee_name(c).rsplit("::", 1)[-1] in UNCHECKED and
+                               M.callee_name(c).replace("::<", "<").startswith(tdisp.split("<")[0])]
+            if not calls_unchecked or takes_id:
+                continue
+            n_ctor += 1
+            args = [D.sym(f"a{i}") for i in range(argc)]
+            try:
+                paths = dex.paths(fn, args)
+            except D.Unrecognised as e:
+                ctx.unrecognised("C10.validate", f"C10.validate:{fn['path']}", w.where(fn), str(e))
+                continue
+            good, why = True, ""
+            for p in paths:
+                tv = U.true_variants(p)
+                for i, e in enumerate(p.effects):
+                    if e[0].rsplit("::", 1)[-1] in UNCHECKED and e[0].replace("::<", "<").startswith(tdisp.split("<")[0]):
+                        arg = D.show(e[1][0])
+                        prior = [x for x in p.effects[:i] if x[0] == V or x[0].split("::<")[0] == V.split("::<")[0]]
+                        okv = [x for x in prior if D.show(x[1][0]) == arg and tv.get(D.show(U_ret(x))) == "Ok"]
+                        if not okv:
+                            good = False
+                            why = f"{e[0].rsplit('::', 1)[-1]}({arg}) without a successful {V.rsplit('::', 2)[-2]}::validate({arg}) before it"
+            ctx.check(good, "C10.validate", f"C10.validate:{fn['path']}", w.where(fn), bad_msg=why)
+    ctx.count("validated_id_types", len(validators))
+    ctx.floor("constructors checked for validate-before-construct", n_ctor, 40)
+    ctx.floor("validated identifier types", len(validators), 10)
+
+
+
+def invariant_rules(ctx, w):
+    """The rules that establish what a constructed identifier looks like. C17 runs them too: its reviewed accessor sites (`port().unwrap()`,
+    `&s[..colon_idx]`) are panic-free only while the validators keep guaranteeing the shape the accessors assume."""
+    validate_rules(ctx, w)
+    server_name_rules(ctx, w)
+    length_rules(ctx, w)
+    split_agreement(ctx, w, "C10.split-agreement")
 
 
 def is_string_build(body, op):
